@@ -33,6 +33,7 @@ pub fn clock_get() -> (r: Result<Clock, E>) ensures r.is_ok() ==> r.unwrap().uni
 
 pub enum InstructionFlag { Approved }
 /// Carrier for the flags!-generated bit container (one flag)
+#[derive(Clone, Copy)]
 pub struct InstructionFlagContainer { pub approved: bool }
 impl InstructionFlagContainer {
     pub fn get_flag(&self, flag: InstructionFlag) -> (r: bool) ensures r == self.approved { self.approved }
@@ -50,6 +51,7 @@ pub fn optional_address(pubkey: &Pubkey) -> (r: Option<&Pubkey>)
 //@body
 
 //@struct programs/timelock/src/states/instruction.rs :: pub struct InstructionHeader :: version, flags, wallet_bump, padding_0, approved_at, executor, program_id, num_accounts, data_len, padding_1, rent_receiver, approver, reserved
+#[derive(Clone, Copy)]
 pub struct InstructionHeader { pub flags: InstructionFlagContainer, pub approved_at: i64, pub approver: Pubkey, pub executor: Pubkey, pub program_id: Pubkey, pub num_accounts: u16, pub data_len: u16 }
 
 /// the Approved flag is set exactly when an approver is recorded (established by zero-init, preserved by approve)
@@ -99,7 +101,7 @@ impl InstructionHeader {
             approver == DEFAULT_PUBKEY ==> r.is_err(),
             r.is_err() ==> *final(self) == *old(self),
             // success records the approver and marks the header approved; the buffered instruction is untouched
-            r.is_ok() ==> final(self).flags.approved && final(self).approver == approver && approver != DEFAULT_PUBKEY
+            r.is_ok() ==> final(self).flags.approved && final(self).approver == approver && approver != DEFAULT_PUBKEY && final(self).approved_at == now_spec()
                 && final(self).executor == old(self).executor && final(self).program_id == old(self).program_id
                 && final(self).num_accounts == old(self).num_accounts && final(self).data_len == old(self).data_len,
 //@body
